@@ -15,7 +15,9 @@ from vf.runner import engine_pool, have_node, node_pool
 
 RECEIVERS = ['""', '"a"', '"aaa"', '"Hello World"', '" \\t\\n x \\v\\f\\r "', '"\\u00a0x\\u00a0\\ufeff"', '"12345"', '"abcabc"', '"a,b,,c"', '"AbC"',
              '"\\u00e4\\u00f6\\u00fc\\u00df"', '"a.b*c"']
-ARGS = ["undefined", "null", "NaN", "Infinity", "-Infinity", "-1", "0", "1", "2", "5", "100", "1.7", '"2"', '""', '"a"', '"bc"', "true", "-0.5", '"b"', "[]"]
+ARGS = ["undefined", "null", "NaN", "Infinity", "-Infinity", "-1", "0", "1", "2", "5", "100", "1.7", '"2"', '""', '"a"', '"bc"', "true", "-0.5", '"b"', "[]",
+        # objects take part through their primitive value (valueOf for numbers, toString for strings), regexps through /source/flags
+        "({valueOf: function () { return 1; }, toString: function () { return 'b'; }})", "({toString: function () { return '2'; }})", "({valueOf: function () { return '1'; }})", "[1]", "['b']", "/b/"]
 FALLBACK_METHODS = ["charAt", "charCodeAt", "indexOf", "lastIndexOf", "substring", "slice", "split", "toLowerCase", "toUpperCase", "trim",
                     "trimStart", "trimEnd", "concat", "repeat", "startsWith", "endsWith", "includes", "replace", "replaceAll", "match", "search",
                     "toString"]
